@@ -91,6 +91,11 @@ theorem backprop_footprint (bm : BMode) (H : Heap α) (root : Nat) (hdag : HeapD
       | false => rfl
     rw [(backprop_untracked_root bm H root hf).1]
 
+/-- the footprint theorem for every heap the public API can build -/
+theorem backprop_footprint_reachable (bm : BMode) (H : Heap α) (root : Nat) (hr : Reach bm H) (n : Nat)
+    (hn : n ∉ backwardOrder H root) : (backprop bm H root).heap.ctx n = H.ctx n :=
+  backprop_footprint bm H root (reach_dag hr) n hn
+
 /-- two back-propagations over graphs that share only untracked tensors have disjoint write sets:
     no tensor is in both orders when no TRACKED tensor is reachable from both roots (members of an order are
     tracked tensors reachable from its root — `visit` only follows `succs`, which filters on `tracked`) -/
